@@ -61,13 +61,33 @@ fn main() {
             std::process::exit(2);
         });
     }
-    let ev = match id.as_str() {
+    let run = || -> engine::Evidence {
+        match id.as_str() {
         "C01" => props::cpu::run(&ctx, props::cpu::Which::Semantics),
         "C15" => props::cpu::run(&ctx, props::cpu::Which::Cycles),
-        "C08" => props::c08::run(&ctx),
+        "C05" => props::c05::run(&ctx),
+            "C08" => props::c08::run(&ctx),
+        "C09" => props::c09::run(&ctx),
         _ => {
             eprintln!("unknown property {}", id);
             std::process::exit(2);
+        }
+        }
+    };
+    let ev = match engine::catch(run) {
+        Ok(ev) => ev,
+        Err(p) => {
+            // a panic that escaped every guard: inside the code under test it is a finding of its own,
+            // inside the harness it is a harness error (inconclusive)
+            if p.contains("emulator-2a") {
+                let mut ev = engine::Evidence::new("exploration", "run aborted by a panic in the code under test");
+                ev.evaluations = 1;
+                ev.violation("panic", &engine::panic_signature(&p), format!("uncaught panic in the code under test: {}", p), serde_json::json!({"panic": p}));
+                ev
+            } else {
+                println!("HARNESS-ERROR property={} {}", id, p);
+                std::process::exit(2);
+            }
         }
     };
     let code = engine::finish(&ctx, ev);
